@@ -5,15 +5,16 @@
    * [sv_build_set sp md w' n P] is the model of SparseBuilder::new(n, |P|), try_set for every element of P,
      SparseVector::try_from. [w'] stands for the result of the f64 expression in get_params (an oracle: every
      value 1..63 is covered); [eff_width w' n m] is the width get_params then uses (w' if 0 < m <= n, else 1).
-   * The embedded plain bitvector and IntVector enter through two contracts (Proofs/SparseBuild.v):
+   * The embedded plain bitvector enters through one contract (Proofs/SparseBuild.v):
      [high_contract sp md]: BitVector::from(raw) followed by enable_select and enable_select_zero succeeds and
-     the result answers get / select / select_zero as the bit list stored in raw (this is C01);
-     [low_contract]: IntVector::with_len / set / get behave as a sequence of w-bit values (this is C05).
+     the result answers get / select / select_zero as the bit list stored in raw (this is C01).
+     The embedded IntVector needs no assumption: with_len / set / get are proved to behave as a sequence of
+     w-bit values in Proofs/SparseLow.v ([C02_low_part] below).
    * [m + buckets < 2^64]: the high part is addressable (SparseBuilder computes ones + buckets in usize). *)
 From Coq Require Import NArith List Bool.
 Require Import SDS.Model.Mach SDS.Model.Bits SDS.Model.Raw SDS.Model.IntVec SDS.Model.BitVec SDS.Model.Sparse.
 Require Import SDS.Spec.BitSeq SDS.Spec.ValSeq SDS.Proofs.BVCommon SDS.Proofs.SparseSeq SDS.Proofs.SparseProof.
-Require Import SDS.Proofs.SparseBuild SDS.Proofs.SparseMain.
+Require Import SDS.Proofs.SparseBuild SDS.Proofs.SparseLow SDS.Proofs.SparseMain.
 Import ListNotations.
 Open Scope N_scope.
 
@@ -27,13 +28,24 @@ Theorem C02_buckets_64 : forall universe,
   universe < 2 ^ 64 -> get_buckets universe 64 = Ok (if universe =? 0 then 0 else 1).
 Proof. exact get_buckets_64. Qed.
 
+(* the low part: IntVector::with_len(len, w, 0), set and get as a sequence of w-bit values *)
+Theorem C02_low_part : exists R : intvec -> N -> list N -> Prop,
+  (forall len w, 1 <= w <= 64 ->
+     exists v, iv_with_len len w 0 = Some (Ok v) /\ R v w (repeatN 0 (N.to_nat len))) /\
+  (forall v w L i x, R v w L -> i < lenN L -> x < 2 ^ w ->
+     exists v', iv_set v i x = Ok v' /\ R v' w (setN L i x)) /\
+  (forall v w L, R v w L ->
+     ilen v = lenN L /\ iwidth v = w /\ forall i, i < lenN L -> iv_get v i = Ok (nthd L i)).
+Proof. exact low_contract_holds. Qed.
+Print Assumptions C02_low_part.
+
 (* Main theorem. For every universe size, every strictly increasing position list below it, every width the rule
    can produce, both select implementations and both overflow modes: the builder accepts the list; the high
    part H is the unary bucket code with exactly ceil(n / 2^w) unset bits (the i-th set bit of H is at
    (P[i] >> w) + i, the k-th unset bit at k + |{p : p >> w <= k}|); and every query returns the defined answer:
    get below n; rank, rank_zero, select, select_zero, predecessor, successor for EVERY argument. *)
 Theorem C02_sparse_exact : forall sp md w' n P,
-  high_contract sp md -> low_contract ->
+  high_contract sp md ->
   n < 2 ^ 64 -> 1 <= w' <= 63 -> increasing P = true -> all_below n P = true ->
   lenN P + buckets_of n (eff_width w' n (lenN P)) < 2 ^ 64 ->
   exists sv H,
